@@ -634,6 +634,9 @@ class MarkdownNormalizer(Renderer):
         # A setext heading may span several lines; an ATX heading cannot, so the line
         # breaks inside its text become spaces (else the rest would turn into a paragraph).
         children_content = re.sub(r"[ \t]*\\?\n[ \t]*", " ", children_content)
+        # Text that ends in a run of `#`s after a space (possible in a setext heading) would
+        # be taken for the optional closing sequence of an ATX heading and disappear.
+        children_content = re.sub(r"(^|[ \t])(#+[ \t]*)$", r"\1\\\2", children_content)
         # If heading ends with hard break, don't add extra newline. The same goes for a
         # heading directly inside an item of a tight list: a blank line after it would
         # turn the list into a loose one.
